@@ -170,9 +170,22 @@ def check(ck):
         ck.require(rn.ast is not None and isinstance(rn.ast.value, ast.Name), "C18.4", "%s: returns the emitted dictionary" % q.fn(fe), "dictionary returned",
                    "emit_additional_headers does not return the dictionary of emitted headers (the User-Agent fallback test uses it)", q.loc(fe, rn))
     gs = cfg_of(fsend)
-    uat = [n for n in gs.live_nodes() if n.kind == "branch" and isinstance(n.test, ast.Compare) and len(n.test.comparators) == 1 and
-           prov.contains(prov.origin(gs, n, n.test.comparators[0]), lambda x: x[0] == "call" and x[1][0] == "attr" and x[1][2] == "emit_additional_headers")]
-    okk = any(isinstance(n.test.left, ast.Constant) and n.test.left.value == spec.FALLBACK_HEADER for n in uat)
+    # the membership test of the fallback, wherever it is evaluated (in the `if` itself or stored in a flag first)
+    uat = []
+    for n in gs.live_nodes():
+        for e in node_exprs(n):
+            for sub in ast.walk(e):
+                if isinstance(sub, ast.Compare) and len(sub.comparators) == 1 and isinstance(sub.ops[0], (ast.In, ast.NotIn)) and \
+                        prov.contains(prov.origin(gs, n, sub.comparators[0]),
+                                      lambda x: x[0] == "call" and x[1][0] == "attr" and x[1][2] == "emit_additional_headers"):
+                    uat.append(sub)
+
+    def _lit(e):
+        try:
+            return prog.const("jsonrpc", e)
+        except AnalysisError:
+            return None
+    okk = any(_lit(c.left) == spec.FALLBACK_HEADER for c in uat)
     ck.require(okk, "C18.4", "%s: fallback test uses the lower-case literal" % q.fn(fsend), "'user-agent' in <emitted>",
                "the User-Agent fallback compares a non-normalised literal with the lower-cased header names", q.loc(fsend, fsend.node))
 
